@@ -261,11 +261,16 @@ func genC10(seed uint64, run int, tier string) Scenario {
 	if plan.WantOpen == "auth" {
 		sc.Class = sc.Auth + "/too-many-prompts"
 	}
+	sc.CutEnum = pickCutEnum(run, 6)
 
 	return sc
 }
 
 func expandC10(base Scenario, res *Result, tier string) []Scenario {
+	return append(expandC10Faults(base, res, tier), expandSessionCuts(base, res, tier, 120)...)
+}
+
+func expandC10Faults(base Scenario, res *Result, tier string) []Scenario {
 	b := base.(*Session)
 	if len(res.Violations) > 0 || res.HarnessError != "" || b.Plan == nil || b.Plan.WantOpen != "" {
 		return nil
@@ -326,6 +331,7 @@ func runC10(env *Env, s Scenario) {
 	out := env.K.Run(done, sc.Deadline(), Micro(sc.ReadDelayUS)*20+time.Millisecond)
 	env.Finish(out)
 	sc.BaseEmitted = sr.OpenRec.EmittedAtEnd
+	sc.noteCutBase(env, sr.Tr)
 	c11Writes, c11Emitted = sr.Tr.NWrites(), sr.Tr.Emitted()
 	env.Context = func() string { return sr.Summary() + fmt.Sprintf("plan: %+v\ndevice log: %q\n", *sc.Plan, sr.Dev.Log) }
 	env.Res.Shape = fmt.Sprintf("%s asks=%s end=%s stall=%d seg=%s lat=%s rd=%d", sc.Auth, strings.Join(sc.Plan.Asks, ","), sc.Plan.End, sc.F.StallAt, sc.Net.SegMode, sc.Net.LatMode, sc.ReadDelayUS)
